@@ -465,6 +465,32 @@ class Facts:
             self._by_key[f.key].append(f)
         self._cg = None
 
+    def loop_form(self, fn):
+        """`fn` with every supported iterator chain written out as a loop (closures inlined), whatever the
+        closures do.  For rules that read what a small function computes from its loop; the stand-alone
+        Fn is not registered anywhere."""
+        import copy as _copy
+        from .desugar import desugar_function
+        cache = self.__dict__.setdefault("_loop_forms", {})
+        if fn.path in cache:
+            return cache[fn.path]
+        j = _copy.deepcopy(fn.j)
+        try:
+            n = desugar_function(self.raw, j)
+        except Exception:
+            n = 0
+        if not n:
+            cache[fn.path] = fn
+            return fn
+        g = Fn(self, j)
+        inl = set(j.get("inlined", ()))
+        g.closures = [c for c in fn.closures if c.path not in inl]
+        for c in self.fns.values():
+            if c.parent in inl and (c.is_closure or c.root) and c not in g.closures:
+                g.closures.append(c)
+        cache[fn.path] = g
+        return g
+
     # -- lookup -------------------------------------------------------------------------
     def fn(self, key, required=True):
         """Look a function up by its generics-free key (`adt::name`, `<adt as trait>::name`,
